@@ -68,11 +68,11 @@ func c06OneShot(p *Program, r *Report) {
 		case "CAS":
 			o, ok1 := constInt(at.Args[0])
 			n, ok2 := constInt(at.Args[1])
-			ok = ok1 && ok2 && ((o == lc.Running && n == lc.Killing) || (o == lc.Killing && n == lc.Killed && a.Fn == lc.MarkKilled))
+			ok = ok1 && ok2 && ((o == lc.Running && n == lc.Killing) || (o == lc.Killing && n == lc.Killed && lc.MarkKilled != nil && p.igxSkip(lc.MarkKilled, lc.roleFuncs(p)).owns(p, a.Fn)))
 			why = "state moves running→killing and killing→killed only by compare-and-swap (one-shot: a second kill, or a restart racing a kill, loses the CAS)"
 		case "Store":
 			v, ok1 := constInt(at.Args[0])
-			ok = ok1 && v == lc.Running && a.Fn == lc.HandleRestart
+			ok = ok1 && v == lc.Running && lc.HandleRestart != nil && p.igxSkip(lc.HandleRestart, lc.roleFuncs(p)).owns(p, a.Fn)
 			why = "the only plain store is state←running in the restart step"
 		}
 		r.Check(ok, construct, a.In.Pos(), why)
@@ -293,7 +293,7 @@ func c06Cleanup(p *Program, r *Report) {
 	}
 	g := p.igx(lc.Cleanup) // single-call helpers of the cleanup step (e.g. an extracted notification loop) stay part of its paths
 	term := p.assumeAvoid(g, map[*types.Var]bool{lc.Continue: true, lc.Restarting: false})
-	rest := p.assumeAvoid(g, map[*types.Var]bool{lc.Continue: true, lc.Restarting: true})
+	rest := p.assumeRestarting(lc, g)
 	type eff struct {
 		name  string
 		nodes map[int]bool
@@ -603,7 +603,9 @@ func c06ChainOrder(p *Program, r *Report) {
 			}
 			// through a helper of the context that deletes on every path
 			if y := cc.Call.StaticCallee(); y != nil && p.inModule(y) && g.Inlined[cc] == nil {
-				return p.mustDo(y, func(in2 ssa.Instruction) bool {
+				// … on every path except the one on which the (lazily created) table itself is nil: there is no entry then
+				yg := p.ig(y)
+				yd := nodesWhere(yg, func(in2 ssa.Instruction) bool {
 					c2, ok2 := in2.(*ssa.Call)
 					if !ok2 {
 						return false
@@ -614,15 +616,17 @@ func c06ChainOrder(p *Program, r *Report) {
 					}
 					f, _ := fieldLoad(strip(c2.Call.Args[0]))
 					return f == children
-				}, 0)
+				})
+				return len(yd) > 0 && !anyIn(yg.Reach(yg.entry(), yd, nilTableEdges(p, yg, children)), yg.Exits)
 			}
 		}
 		return false
 	})
 	runs := nodesWhere(g, func(in ssa.Instruction) bool { c := callOf(in); return c != nil && c.StaticCallee() == lc.ExecRecover })
 	ok := len(dels) > 0
+	before := g.Reach(g.entry(), dels, nilTableEdges(p, g, children))
 	for rn := range runs {
-		if !g.DominatedByNodes(rn, dels) {
+		if before[rn] {
 			ok = false
 		}
 	}
@@ -734,4 +738,15 @@ func c06WatchRegisters(p *Program, r *Report) {
 	if n == 0 {
 		r.Unresolved("no function stores into the watcher table")
 	}
+}
+
+// nilTableEdges: the edges of g asserting that the map field f is nil (a lazily created table that was never created holds no entry)
+func nilTableEdges(p *Program, g *IG, f *types.Var) map[edge]bool {
+	out := map[edge]bool{}
+	for _, ef := range p.edgeFacts(g) {
+		if ef.Field == f && ef.Fact.IsNil && ef.Fact.Op == token.EQL {
+			out[ef.E] = true
+		}
+	}
+	return out
 }
